@@ -371,7 +371,43 @@ fn raw(ctx: &mut Ctx, data: &[u8], tagname: &str) {
     ctx.stat(&format!("raw:{tagname}"));
 }
 
+/// `MessageBuilder::from_file`: the announced length comes from the file's metadata; what is written
+/// must still be a legal stream when the file yields another amount (special files, files that grow
+/// or shrink while they are read) — or the builder must fail (oracle only)
+fn run_from_file_lengths(ctx: &mut Ctx) {
+    for path in ["/proc/version", "/proc/self/stat", "/proc/self/cmdline"] {
+        let Ok(real) = std::fs::read(path) else {
+            ctx.stat("from_file:special_file_absent");
+            continue;
+        };
+        let meta = std::fs::metadata(path).map(|m| m.len()).unwrap_or(0);
+        for chunked in [false, true] {
+            let r = guarded(|| {
+                let mut b = MessageBuilder::from_file(path);
+                if chunked {
+                    b.partial_chunk_size(512).ok()?;
+                }
+                b.to_vec(rand::thread_rng()).ok()
+            });
+            let input = format!("path={path} metadata_len={meta} yields={} octets", real.len());
+            match r {
+                Err(p) => ctx.oracle("writer_emits_legal_framing", "MessageBuilder::from_file", &input, false, &format!("panic: {p}")),
+                Ok(None) => ctx.stat("from_file:refused"),
+                Ok(Some(out)) => {
+                    let s = real_stream(&out);
+                    // exactly one packet (the literal), then the end
+                    let items: Vec<&str> = s.trim_start_matches("ok:").split(';').collect();
+                    let ok = items.len() == 2 && items[0].starts_with("1.11.") && items[1] == "end";
+                    ctx.oracle("writer_emits_legal_framing", "MessageBuilder::from_file", &input, ok, &format!("written stream splits as {s}; out={}", hx(&out[..out.len().min(64)])));
+                    ctx.stat("from_file:written");
+                }
+            }
+        }
+    }
+}
+
 pub fn run(ctx: &mut Ctx) {
+    run_from_file_lengths(ctx);
     run_streams(ctx);
     let lens: Vec<usize> = if ctx.thorough() {
         vec![0, 1, 2, 190, 191, 192, 193, 255, 256, 257, 511, 512, 513, 8383, 8384, 8385, 65535, 65536, 65537, 70000]
